@@ -36,7 +36,8 @@ RULE = ("scenarios = {seed, event-queue (LLSD and garbage body), wrapper, asset 
         "return True}; each scenario is run once cleanly and once per function entered inside the handlers (failpoint raising "
         "there; quick: every 3rd failpoint per scenario, thorough: all) and once per statement executed inside the event manager's own handler functions (sys.monitoring LINE failpoints; quick: every 4th); + the mitmproxy-side callback pump (good / corrupt state / "
         "unknown event / preempt / two flows) and whole request+response cycles through both sides x {viewer, proxy-injected, "
-        "browser} origins. distinct_nontrivial = distinct (scenario, failpoint function) pairs + end-to-end combinations")
+        "browser} origins. distinct_nontrivial = distinct (scenario, failpoint function) pairs + end-to-end combinations"
+        ". Round-5 additions: flows taken in a hook and released from a task scheduled through the addon API (default and unscoped) while region change(s), neighbour registration, circuit creation, another flow or another session's end happen in between - incl. the library's own WebAppCapAddon serving a proxy-only cap; wait_for() with the caller's timeout on the session / region HTTP message handler: served, timed out, cancelled then timed out, timed out then cancelled")
 ASSUMPTIONS = [
     "a failpoint is any repository function entered while _handle_request/_handle_response is on the stack (including "
     "addon dispatch and the hooks' own calls); the cross-process hand-back code itself (resume/get_state) is not faulted",
@@ -202,12 +203,21 @@ URL_KINDS = ["seed", "eq", "eq_garbage", "wrapper", "served", "proxy_only", "tem
 BEHAVIOURS = ["ignore", "take", "take_owner_gone", "take_resume_now", "resume_now", "take_then_raise", "inject_response", "rewrite_url", "raise", "retarget", "no_stream", "true"]
 
 
+_BUILDS = [0]
+
+
 def build(rig, kind, event_type):
     """Returns the mitmproxy-side flow to hand to the main process."""
     # two avatars on the same simulator, and a second region in the first session: identity must not get mixed up
-    other = rig.add_session(("10.1.0.2", 13002))
+    # (which of the two logged in first alternates: the flow's session is the older or the newer one)
+    _BUILDS[0] += 1
+    if _BUILDS[0] % 2:
+        other = rig.add_session(("10.1.0.2", 13002))
+        session = rig.add_session(("10.1.0.1", 13001))
+    else:
+        session = rig.add_session(("10.1.0.1", 13001))
+        other = rig.add_session(("10.1.0.2", 13002))
     other.regions[0].update_caps({"EventQueueGet": "https://simB.example.invalid:12043/cap/eq"})
-    session = rig.add_session(("10.1.0.1", 13001))
     region = session.register_region(("10.1.0.2", 13002), seed_url="https://sim1.example.invalid:12043/cap/seed-second",
                                      handle=(256256 << 32) | 256000)
     session.register_region(("10.1.0.3", 13003), seed_url="https://sim1.example.invalid:12043/cap/seed-third")
